@@ -60,8 +60,8 @@ class El:
 
 def gen(rng, depth, names, cnt, active, path=()):
     """active: names locally bound by an enclosing element (a global define must not hit those)."""
-    kind = rng.choice(['define', 'define', 'gdefine', 'gmixed', 'repeat', 'trepeat', 'tdefine', 'plain', 'usemacro', 'define2', 'lambda'])
-    if kind in ('gdefine', 'gmixed'):
+    kind = rng.choice(['define', 'define', 'gdefine', 'gmixed', 'grepeat', 'repeat', 'trepeat', 'tdefine', 'plain', 'usemacro', 'define2', 'lambda'])
+    if kind in ('gdefine', 'gmixed', 'grepeat'):
         cands = [n for n in names if n not in active]
         if not cands or (kind == 'gmixed' and len(names) < 2):
             kind = 'plain'
@@ -75,6 +75,9 @@ def gen(rng, depth, names, cnt, active, path=()):
         binds = [(n, next(cnt)), (n, next(cnt))]          # "n 1; n 2": later parts see (and here rebind) earlier ones
     elif kind == 'gdefine':
         binds = [(n, next(cnt)) for n in rng.sample(cands, 1)]
+    elif kind == 'grepeat':
+        # tal:repeat="global n ...": the loop variable is a global definition (it persists, nothing is restored)
+        binds = [(rng.choice(cands), next(cnt))]
     elif kind == 'gmixed':
         # "global g 1; l 2": the keyword belongs to its own part only - l is an ordinary local definition
         g = rng.choice(cands)
@@ -118,6 +121,8 @@ def ser(n, names):
         a = ' tal:define="(%s, %s) (%d, %d)"' % (n.binds[0][0], n.binds[1][0], n.binds[0][1], n.binds[1][1])
     elif n.kind == 'repeat':
         a = ' tal:repeat="%s (%d, %d)"' % (n.binds[0][0], n.binds[0][1], n.binds[0][1] + 1000)
+    elif n.kind == 'grepeat':
+        a = ' tal:repeat="global %s (%d, %d)"' % (n.binds[0][0], n.binds[0][1], n.binds[0][1] + 1000)
     elif n.kind == 'trepeat':
         a = ' tal:repeat="(%s, %s) [(%d, %d)]"' % (n.binds[0][0], n.binds[1][0], n.binds[0][1], n.binds[1][1])
     elif n.kind == 'usemacro':
@@ -213,6 +218,15 @@ class Interp:
             self.out.append('\n')
             for i, val in enumerate((v, v + 1000)):
                 bind(name, val)
+                body()
+                if i == 0:
+                    self.out.append('\n')
+        elif n.kind == 'grepeat':
+            name, v = n.binds[0]
+            self.out.append('\n')
+            for i, val in enumerate((v, v + 1000)):
+                env[name] = val
+                self.globals[name] = val
                 body()
                 if i == 0:
                     self.out.append('\n')
@@ -333,7 +347,7 @@ def layer_probes(ctx, n, mscope):
         ctx.case(key=(shape(root), tuple(n_ in BUILTIN_NAMES for n_ in names), tuple(sorted(pre))),
                  nontrivial=has_collision(root, pre),
                  sample={'source': src, 'prebound': pre, 'rendered': got} if case < 2 else None)
-        globs = {b[0] for b in all_binds(root, 'gdefine')} | {b[0] for b in list(all_binds(root, 'gmixed'))[::2]} | {MACRO_G, GK}
+        globs = {b[0] for b in all_binds(root, 'gdefine')} | {b[0] for b in all_binds(root, 'grepeat')} | {b[0] for b in list(all_binds(root, 'gmixed'))[::2]} | {MACRO_G, GK}
         mscope.check(kw, globs, 'probe program')
         if got != want[0]:
             key = 'probe-output-differs'
